@@ -226,7 +226,10 @@ def merge_stats(pid, stats_list):
             for k, v in (s.get("labels") or {}).items():
                 merged["labels"][k] = merged["labels"].get(k, 0) + v
             for k, v in (s.get("counters") or {}).items():
-                merged["counters"][k] = merged["counters"].get(k, 0) + v
+                if k.startswith("max_"):
+                    merged["counters"][k] = max(merged["counters"].get(k, 0), v)
+                else:
+                    merged["counters"][k] = merged["counters"].get(k, 0) + v
             for k, v in (s.get("known_hits") or {}).items():
                 merged["known_hits"][k] = merged["known_hits"].get(k, 0) + v
             for smp in (s.get("samples") or []):
